@@ -529,6 +529,241 @@ var propFalsifiers = map[string]func(w *World, fn *ssa.Function, r vcResult) *Co
 	"C15": cliFalsifier,
 	"C08": semverFalsifier,
 	"C09": pep440Falsifier,
+	"C02": rangeFalsifier,
+	"C20": orderFalsifier,
+}
+
+const rangeTestTmpl = `package %s
+
+import (
+	"fmt"
+	"testing"
+)
+
+func TestVerifReplay(t *testing.T) {
+	strs := %s
+	e := &Ecosystem{}
+	var vs []*Version
+	seen := map[string]bool{}
+	for _, s := range strs {
+		if v, err := e.NewVersion(s); err == nil && len(vs) < 14 && !seen[s] {
+			bad := false
+			for _, c := range s {
+				if c == ' ' || c == ',' || c == '|' || c == '<' || c == '>' || c == '=' || c == '!' || c == '~' || c == '^' || c == '*' {
+					bad = true
+				}
+			}
+			if !bad {
+				seen[s] = true
+				vs = append(vs, v)
+			}
+		}
+	}
+	rel := map[string]func(int) bool{
+		"=": func(c int) bool { return c == 0 }, "==": func(c int) bool { return c == 0 }, "!=": func(c int) bool { return c != 0 },
+		"<": func(c int) bool { return c < 0 }, "<=": func(c int) bool { return c <= 0 }, ">": func(c int) bool { return c > 0 }, ">=": func(c int) bool { return c >= 0 },
+		"<<": func(c int) bool { return c < 0 }, ">>": func(c int) bool { return c > 0 },
+	}
+	type cons struct{ text string; op string; v *Version }
+	var singles []cons
+	n := 0
+	for op := range rel {
+		for _, v := range vs {
+			text := op + v.String()
+			r, err := e.NewVersionRange(text)
+			if err != nil {
+				continue
+			}
+			singles = append(singles, cons{text, op, v})
+			for _, p := range vs {
+				n++
+				if got, want := r.Contains(p), rel[op](p.Compare(v)); got != want {
+					fmt.Printf("VERIF-CX range %%q contains %%q = %%v, but Compare(%%q, %%q) = %%d\n", text, p.String(), got, p.String(), v.String(), p.Compare(v))
+					return
+				}
+			}
+		}
+	}
+	if len(singles) > 40 {
+		step := len(singles)/40 + 1
+		var nx []cons
+		for i := 0; i < len(singles); i += step {
+			nx = append(nx, singles[i])
+		}
+		singles = nx
+	}
+	holds := func(c cons, p *Version) bool { return rel[c.op](p.Compare(c.v)) }
+	for _, sep := range []string{",", ", ", " "} {
+		// a separator counts as AND syntax when a two-comparator list parses and splits as expected on a sanity pair
+		for _, a := range singles {
+			for _, b := range singles {
+				for _, c := range singles[:3] {
+					text := a.text + sep + b.text + sep + c.text
+					r, err := e.NewVersionRange(text)
+					if err != nil {
+						continue
+					}
+					for _, p := range vs {
+						n++
+						want := holds(a, p) && holds(b, p) && holds(c, p)
+						if got := r.Contains(p); got != want {
+							fmt.Printf("VERIF-CX range %%q (AND list) contains %%q = %%v, the comparators say %%v\n", text, p.String(), got, want)
+							return
+						}
+					}
+				}
+			}
+		}
+	}
+	for _, a := range singles {
+		for _, b := range singles[:min(len(singles), 6)] {
+			for _, c := range singles[:min(len(singles), 4)] {
+				text := a.text + " || " + b.text + " || " + c.text
+				r, err := e.NewVersionRange(text)
+				if err != nil {
+					continue
+				}
+				for _, p := range vs {
+					n++
+					want := holds(a, p) || holds(b, p) || holds(c, p)
+					if got := r.Contains(p); got != want {
+						fmt.Printf("VERIF-CX range %%q (OR groups) contains %%q = %%v, the comparators say %%v\n", text, p.String(), got, want)
+						return
+					}
+				}
+			}
+		}
+	}
+	fmt.Printf("VERIF-OK evals=%%d versions=%%d comparators=%%d\n", n, len(vs), len(singles))
+}
+`
+
+func rangeFalsifier(w *World, fn *ssa.Function, r vcResult) *Counterexample {
+	pkg := fn.Pkg
+	if pkg == nil || pkg.Pkg.Scope().Lookup("Ecosystem") == nil || pkg.Pkg.Scope().Lookup("VersionRange") == nil {
+		return nil
+	}
+	src := fmt.Sprintf(rangeTestTmpl, pkg.Pkg.Name(), goStringSlice(harvestStrings(w, pkg, true)))
+	out, _ := runOverlayTest(w, pkg, src, 180*time.Second)
+	cx := &Counterexample{How: "real NewVersionRange/Contains on comparator ranges (single, AND lists, || groups) against Compare", Output: truncate(lastLines(out, 8), 2000)}
+	for _, ln := range strings.Split(out, "\n") {
+		if strings.HasPrefix(ln, "VERIF-CX ") {
+			cx.Confirmed = true
+			cx.Observed = strings.TrimPrefix(ln, "VERIF-CX ")
+			return cx
+		}
+	}
+	cx.Observed = "no difference observed"
+	return cx
+}
+
+const orderTestTmpl = `package %s
+
+import (
+	"fmt"
+	"testing"
+)
+
+func TestVerifReplay(t *testing.T) {
+	strs := %s
+	e := &Ecosystem{}
+	var vs []*Version
+	var rs []*VersionRange
+	var conj []bool
+	for _, s := range strs {
+		if v, err := e.NewVersion(s); err == nil && len(vs) < 260 {
+			vs = append(vs, v)
+		}
+		if r, err := e.NewVersionRange(s); err == nil && len(rs) < 400 {
+			rs = append(rs, r)
+			c := true
+			for i := 0; i+1 < len(s); i++ {
+				if s[i] == '|' || (s[i] == '!' && s[i+1] == '=') {
+					c = false
+				}
+			}
+			conj = append(conj, c)
+		}
+	}
+	n := 0
+	for i, a := range vs {
+		for j, b := range vs {
+			if i == j {
+				continue
+			}
+			ab := a.Compare(b)
+			if ab == 0 {
+				for _, r := range rs {
+					n++
+					if r.Contains(a) != r.Contains(b) {
+						fmt.Printf("VERIF-CX %%q and %%q compare equal but range %%q contains them %%v / %%v\n", a.String(), b.String(), r.String(), r.Contains(a), r.Contains(b))
+						return
+					}
+				}
+			}
+		}
+	}
+	for k, r := range rs {
+		if !conj[k] {
+			continue
+		}
+		var in []*Version
+		for _, v := range vs {
+			if r.Contains(v) {
+				in = append(in, v)
+			}
+		}
+		if len(in) > 12 {
+			in = in[:12]
+		}
+		for _, a := range in {
+			for _, c := range in {
+				if a.Compare(c) > 0 {
+					continue
+				}
+				for _, b := range vs {
+					n++
+					if a.Compare(b) <= 0 && b.Compare(c) <= 0 && !r.Contains(b) {
+						fmt.Printf("VERIF-CX range %%q contains %%q and %%q but not %%q which lies between them\n", r.String(), a.String(), c.String(), b.String())
+						return
+					}
+				}
+			}
+		}
+	}
+	fmt.Printf("VERIF-OK evals=%%d versions=%%d ranges=%%d\n", n, len(vs), len(rs))
+}
+`
+
+func orderFalsifier(w *World, fn *ssa.Function, r vcResult) *Counterexample {
+	pkg := fn.Pkg
+	if pkg == nil || pkg.Pkg.Scope().Lookup("Ecosystem") == nil || pkg.Pkg.Scope().Lookup("VersionRange") == nil {
+		return nil
+	}
+	pool := apiPool(w, pkg, nil)
+	// spelling variants that usually compare equal: build metadata, v prefix, trailing zero component, exact pins with metadata
+	var extra []string
+	for _, s := range harvestStrings(w, pkg, true) {
+		if len(s) > 0 && len(s) < 16 && s[0] >= '0' && s[0] <= '9' && !strings.ContainsAny(s, " ,|<>=!~^*[]()") {
+			extra = append(extra, s+"+sha.abc", s+"+sha.def", "v"+s, s+".0", "["+s+"+sha.abc]", "="+s+"+sha.abc", "=="+s, "="+s, ">="+s+",<="+s)
+		}
+	}
+	if len(extra) > 360 {
+		extra = extra[:360]
+	}
+	pool = append(extra, pool...)
+	src := fmt.Sprintf(orderTestTmpl, pkg.Pkg.Name(), goStringSlice(pool))
+	out, _ := runOverlayTest(w, pkg, src, 180*time.Second)
+	cx := &Counterexample{How: "real API: Compare-equal pairs must agree on every range; conjunction-only ranges must be convex", Output: truncate(lastLines(out, 8), 2000)}
+	for _, ln := range strings.Split(out, "\n") {
+		if strings.HasPrefix(ln, "VERIF-CX ") {
+			cx.Confirmed = true
+			cx.Observed = strings.TrimPrefix(ln, "VERIF-CX ")
+			return cx
+		}
+	}
+	cx.Observed = "no difference observed"
+	return cx
 }
 
 const pep440TestTmpl = `package pypi
